@@ -591,13 +591,17 @@ def _mk_around(nm, is_method):
         if not AMBIENT['on']:
             return fn(*args, **kwargs)
         check = args[1:] if is_method else args
-        before = purity.snapshot([list(check), kwargs])
+        # a RandomState handed in by the caller is consumed by design; Parameters objects keep their rng and the documented data_frame
+        check = ['<RandomState>' if isinstance(a, np.random.RandomState) else a for a in check]
+        kw = {k: ('<RandomState>' if isinstance(v, np.random.RandomState) else v) for k, v in kwargs.items()}
+        before = purity.snapshot([list(check), kw])
         result = fn(*args, **kwargs)
-        after = purity.snapshot([list(check), kwargs])
+        after = purity.snapshot([list(check), kw])
         AMBIENT['calls'] += 1
         if before != after:
             ch = purity.diff(before, after)
             ch = [p for p in ch if not (nm.startswith('filters.run_') and re.search(r'\.(transform|bias)$', p))]
+            ch = [p for p in ch if not re.search(r'\.(rng|data_frame)$', p)]
             if ch and len(AMBIENT['violations']) < 10:
                 AMBIENT['violations'].append(vio('argument_modified', f'ambient: {nm} changed its arguments at {ch[:4]}'))
         return result
